@@ -63,6 +63,8 @@ def gen(rng, idx, tier):
     for j in range(ne):
         ops.append({"op": "create_enc", "e": j})
     hist = bustraffic.history(rng, n_items=rng.choice([5, 10, 20]), incomplete=True)
+    used_src = {e["f"][1] for e in hist}
+    free_src = [x for x in range(0, 250) if x not in used_src]
     body = []
     for e in hist:
         k = rng.random()
@@ -72,7 +74,15 @@ def gen(rng, idx, tier):
             d = rng.randrange(nd)
         body.append({"op": "feed", "d": d, "f": e["f"]})
         if k < 0.25:
-            body.append(_junk(rng, rng.randrange(nd)))
+            j = _junk(rng, rng.randrange(nd), free_src)
+            if e["k"] == "fast" and j.get("junk") == "short" and rng.random() < 0.7:
+                # a truncated frame on the very stream (and decoder) that is being reassembled
+                j["d"] = d
+                # only frames that the reassembler must reject or ignore: no data at all, or a lone first-frame
+                # header byte (a 2-byte frame with frame counter 0 would be a well-formed message start)
+                data = bytes([rng.randrange(8) << 5]) if rng.random() < 0.8 else b""
+                j["f"] = [e["f"][0], e["f"][1], e["f"][2], 3, data.hex()]
+            body.append(j)
         if k > 0.9:
             body.append({"op": "encode", "e": rng.randrange(ne), "fast": rng.random() < 0.6, "src": rng.randrange(250),
                          "fmt": rng.choice(["ebyte", "usb", "yd"])})
@@ -97,7 +107,8 @@ def gen(rng, idx, tier):
         src = free[(d * 7) % len(free)]
         ops.append({"op": "feed", "d": d, "f": [127250, src, 255, 2, bytes([d, 0x10, 0x20, 0, 0, 0, 0, 0xFC]).hex()], "probe": "single"})
         # fast-packet probe on a stream the decoder has seen, with a counter different from its last first frame
-        seen = [o for o in ops if o["op"] == "feed" and o["d"] == d and "f" in o and o["f"][0] in (129029, 126996, 130816, 126720, 129540)]
+        seen = [o for o in ops if o["op"] == "feed" and o["d"] == d and "f" in o and not o.get("junk")
+                and o["f"][0] in (129029, 126996, 130816, 126720, 129540)]
         if seen:
             s = seen[-1]["f"]
             stream = (s[0], s[1], s[2])
@@ -115,20 +126,23 @@ def gen(rng, idx, tier):
     return {"ops": ops}
 
 
-def _junk(rng, d):
+def _junk(rng, d, free_src):
+    """Inputs that must be rejected or ignored.  They come from source addresses the history does not use, so a
+    short frame can never be mistaken for a frame of a message that is being reassembled."""
     k = rng.random()
+    src = rng.choice(free_src)
     if k < 0.3:
         pgn = rng.choice(traffic.FAST_POOL + traffic.SINGLE_POOL)
-        return {"op": "feed", "d": d, "f": [pgn, rng.randrange(250), 255, 3, traffic.rbytes(rng, rng.randrange(0, 3)).hex()], "junk": "short"}
+        return {"op": "feed", "d": d, "f": [pgn, src, 255, 3, traffic.rbytes(rng, rng.randrange(0, 3)).hex()], "junk": "short"}
     if k < 0.5:
-        return {"op": "feed", "d": d, "f": [rng.choice(traffic.UNKNOWN_POOL), rng.randrange(250), 255, 3, traffic.rbytes(rng, 8).hex()], "junk": "unknown"}
+        return {"op": "feed", "d": d, "f": [rng.choice(traffic.UNKNOWN_POOL), src, 255, 3, traffic.rbytes(rng, 8).hex()], "junk": "unknown"}
     if k < 0.7:
-        return {"op": "feed", "d": d, "f": [rng.choice([127250, 127257, 128267, 127488]), rng.randrange(250), 255, 3, (b"\xfe" * 8).hex()], "junk": "range"}
+        return {"op": "feed", "d": d, "f": [rng.choice([127250, 127257, 128267, 127488]), src, 255, 3, (b"\xfe" * 8).hex()], "junk": "range"}
     if k < 0.85:
         return {"op": "raw", "d": d, "entry": rng.choice(["yd", "actisense", "plain"]),
                 "text": rng.choice(["", "garbage", "00:00:00.000 R ZZZZ 00", "A000001.000 XYZ", "A1.2 3 4", "x,y,z", "2022-09-28-11:36:59.668,3,abc,1,255,8,00",
                                     "00:00:00.000 X 15F11910 00 11", "A000123.456 01FF3 1F112 0G"]), "junk": "text"}
-    b = bytearray(n2k.wire_usb(n2k.can_id(rng.choice([127250, 129029]), rng.randrange(250), 255, 2), traffic.rbytes(rng, 8)))
+    b = bytearray(n2k.wire_usb(n2k.can_id(rng.choice([127250, 129029]), src, 255, 2), traffic.rbytes(rng, 8)))
     b[rng.randrange(2, 20)] ^= rng.randrange(1, 256)
     return {"op": "raw", "d": d, "entry": "usb", "hex": bytes(b).hex(), "junk": "checksum"}
 
@@ -215,6 +229,9 @@ def _run_ops(ops, only_dec=None, skip_junk=False):
             if e is not None:
                 if o["fast"]:
                     m = NMEA2000Decoder().decode_basic_string(GNSS_LINE, True)
+                    if m is None:
+                        out.append(("fresh_none",))
+                        continue
                     m.source = o["src"]
                 else:
                     m = NMEA2000Message(PGN=59904, id="isoRequest", source=o["src"], destination=255, priority=6)
@@ -293,6 +310,10 @@ def execute(plan):
         if isinstance(r, tuple) and r and r[0] == "enc" and r[1] != r[2]:
             v.append(viol("C16.I4", i, "encoder %d stamped sequence counter %d on its fast-packet message #%d (expected %d): another "
                           "instance's activity leaked into it" % (ops[i]["e"], r[1], r[2], r[2])))
+            break
+        if isinstance(r, tuple) and r and r[0] == "fresh_none":
+            v.append(viol("C16.I1", i, "a brand-new decoder instance returned nothing for a valid pre-assembled GNSS message "
+                          "(operation %d) after other instances had been used: state leaks between instances" % i))
             break
         if isinstance(r, tuple) and r and r[0] == "encexc":
             v.append(viol("C16.I4", i, "encoder %d failed to encode a valid message: %s %s" % (ops[i]["e"], r[1], r[2])))
